@@ -458,6 +458,81 @@ pub fn reducible(_f: &F) -> Vec<R> {
     out
 }
 
+/// `tag` around `x` with one sibling `o`: the nested child last (`last`) or first
+fn wrap(tag: Tag, x: R, o: &R, last: bool) -> R {
+    match tag.shape() {
+        Shape::Set | Shape::Seq => R::node(tag, if last { vec![o.clone(), x] } else { vec![x, o.clone()] }),
+        Shape::Image => {
+            if last {
+                R::image(tag, 0, vec![o.clone(), x])
+            } else {
+                R::image(tag, 2, vec![x, o.clone()])
+            }
+        }
+        Shape::Unary => R::node(tag, vec![x]),
+        _ => {
+            if last {
+                R::pair(tag, o.clone(), x)
+            } else {
+                R::pair(tag, x, o.clone())
+            }
+        }
+    }
+}
+
+/// Chains: every ordered tuple of `depth` compound / statement constructors nested in one another
+/// (23^depth tuples), the nested child being the last component at every level, and - in a second
+/// copy - the first. T2 holds every constructor *pair*; a shortcut that needs three or four specific
+/// constructors on one path (a statement inside a set inside an image, ...) is only in here.
+pub fn chains(depth: usize) -> Vec<R> {
+    let all: Vec<Tag> = COMPOUND_TAGS.iter().chain(STATEMENT_TAGS.iter()).copied().collect();
+    let a = R::word("a");
+    let b = R::atom(Tag::IVar, "b1");
+    let o = R::atom(Tag::DVar, "c");
+    let n = all.len();
+    let total = n.pow(depth as u32);
+    let mut out = Vec::with_capacity(total * 2);
+    for code in 0..total {
+        for last in [true, false] {
+            let mut k = code;
+            let mut t = mk2(all[k % n], &a, &b);
+            k /= n;
+            for _ in 1..depth {
+                t = wrap(all[k % n], t, &o, last);
+                k /= n;
+            }
+            out.push(t);
+        }
+    }
+    out
+}
+
+/// Medium-wide mixed terms: every variable-arity constructor over 4, 5 and 6 components that are
+/// compounds / statements of *different* constructors (a sliding window over the representatives),
+/// images with the placeholder first / inside / last.
+pub fn mixed_wide(f: &F) -> Vec<R> {
+    let reps: Vec<R> = reps(f);
+    let m = reps.len();
+    let mut out = vec![];
+    for w in [4usize, 5, 6] {
+        for i in 0..m {
+            let comps: Vec<R> = (0..w).map(|j| reps[(i + j * 7) % m].clone()).filter(|r| r.tag != Tag::Placeholder).collect();
+            for &tag in COMPOUND_TAGS.iter() {
+                match tag.shape() {
+                    Shape::Set | Shape::Seq => out.push(R::node(tag, comps.clone())),
+                    Shape::Image => {
+                        for idx in [0, comps.len() / 2, comps.len()] {
+                            out.push(R::image(tag, idx, comps.clone()));
+                        }
+                    }
+                    _ => {}
+                }
+            }
+        }
+    }
+    out
+}
+
 /// U_term for a format and tier (distinct recipes; see DESIGN 3.1).
 pub fn u_term(f: &F, tier: Tier) -> Vec<R> {
     let mut out = all_atoms(f);
@@ -473,6 +548,8 @@ pub fn u_term(f: &F, tier: Tier) -> Vec<R> {
             }
             out.extend(wide_terms());
             out.extend(nested_variety(f));
+            out.extend(chains(3));
+            out.extend(mixed_wide(f));
         }
         Tier::Thorough => {
             out = all_atoms_extended(f);
@@ -491,6 +568,9 @@ pub fn u_term(f: &F, tier: Tier) -> Vec<R> {
             out.extend(towers(64));
             out.extend(wide_terms());
             out.extend(nested_variety(f));
+            out.extend(chains(3));
+            out.extend(chains(4));
+            out.extend(mixed_wide(f));
         }
     }
     out.extend(numeric_terms());
